@@ -32,16 +32,67 @@ def parseKwargs (s : String) : Fields :=
 
 def showStr (s : Str) : String := if s.isEmpty then "@" else ",".intercalate (s.map fun c => toString c.toNat)
 
+/-- one entry of a scripted callback table (`iatom ↦ behaviour`) -/
+inductive Entry where
+  | lit (s : Str)      -- `L<code points>`: return this text; `S<code points>`: the same as an instance of a `str` subclass
+  | exc (c : Str)      -- `E<Class>`: raise an instance of a subclass of `Exception`
+  | base (c : Str)     -- `B<Class>`: raise a `BaseException` that is not an `Exception`
+  | non                -- `N<kind>`: return a non-`str` object
+  | dflt               -- `D`: return `<program>.default_atom_line(data, iatom)`
+  | znum               -- `Z`: return `f"{int(data.atnums[iatom])}:{iatom}"` (depends on the object)
+
+def parseEntry (e : String) : Entry :=
+  match e.toList with
+  | 'L' :: r => .lit (parseStr (String.ofList r))
+  | 'S' :: r => .lit (parseStr (String.ofList r))
+  | 'E' :: r => .exc r
+  | 'B' :: r => .base r
+  | 'N' :: _ => .non
+  | 'D' :: _ => .dflt
+  | _ => .znum
+
+/-- `-` = no callback; `@` = empty table; else `;`-separated entries, one per atom -/
+def parseCb (s : String) : Option (List Entry) :=
+  if s == "-" then none else if s == "@" then some [] else some ((s.splitOn ";").map parseEntry)
+
+/-- the Python closure `lambda data, iatom: act(table[iatom])` built by the harness -/
+def scripted (t : List (Nat × Str)) (table : List Entry) : AtomLineFn := fun m i =>
+  match table[i]? with
+  | none => .raises (.exception sIndexError)
+  | some (.lit s) => .line s
+  | some (.exc c) => .raises (.exception c)
+  | some (.base c) => .raises (.baseOnly c)
+  | some .non => .nonStr
+  | some .dflt => defaultAtomLine t m i
+  | some .znum =>
+    match m.atoms[i]? with
+    | some a => .line (natDigits a.atnum ++ ':' :: natDigits i)
+    | none => .raises (.exception sIndexError)
+
+def showNats (l : List Nat) : String := if l.isEmpty then "@" else ",".intercalate (l.map toString)
+
 def handle : List String → Option String
-  | ["input", prog, atoms, title, lot, basis, rt, charge, spinpol, template, kwargs] =>
+  | ["input", prog, atoms, title, lot, basis, rt, charge, spinpol, template, kwargs, cb, pre] =>
     let m : Mol := ⟨parseAtoms atoms, parseOptStr title, parseOptStr lot, parseOptStr basis, parseOptStr rt,
                     parseOptRat charge, parseOptRat spinpol⟩
+    let t := Iodata.Gen.Inputs.num2sym
+    let table := parseCb cb
     -- kwargs arrive in call order; later duplicates cannot occur in Python, lookup takes the first
-    some (match writeInput Iodata.Gen.Inputs.num2sym Iodata.Gen.Inputs.programs m (parseStr prog)
-                (parseOptStr template) (parseKwargs kwargs) with
-      | .ok s => "ok " ++ showStr s
-      | .error .fileFormatError => "err FileFormatError"
-      | .error .writeInputError => "err WriteInputError")
+    let o := run t Iodata.Gen.Inputs.programs m (parseStr prog) (parseOptStr template)
+      (table.map (scripted t)) (parseKwargs kwargs)
+    let status := match o.error with
+      | none => "ok"
+      | some .fileFormatError => "err FileFormatError"
+      | some .writeInputError => "err WriteInputError"
+      | some (.passThrough c) => "err Pass:" ++ String.ofList c
+    -- `pre` = 1: the file existed before the call with other content
+    let file := match o.file with
+      | none => if pre == "1" then "old" else "absent"
+      | some s => "f=" ++ showStr s
+    let calls := match table with
+      | none => "-"          -- the default callback is not instrumented by the harness
+      | some _ => "c=" ++ showNats o.calls
+    some (status ++ " " ++ file ++ " " ++ calls)
   | _ => none
 
 end Iodata.Drv.Inputs
